@@ -9,19 +9,19 @@ import (
 )
 
 func init() {
-	register(&Rule{ID: "C17.R1", Min: 5,
+	register(&Rule{ID: "C17.R1", Min: 3,
 		Text: "Int64 extracts the coefficient only under Form==Finite, a zero fractional part, and both range tests against decimalMaxInt64/decimalMinInt64 having failed; each failing edge returns an error; the bounds are built from math.MaxInt64/MinInt64",
 		Run:  ruleInt64Guards})
-	register(&Rule{ID: "C17.R2", Min: 3,
+	register(&Rule{ID: "C17.R2", Min: 1,
 		Text: "Modf: both outputs take Negative and Form from the receiver, the integer part's exponent is the constant 0 and the fraction's is the receiver's, and nil outputs are skipped (alias safety and complete assignment are C05.R1/C06.R2)",
 		Run:  ruleModfOrigins})
-	register(&Rule{ID: "C18.R4", Min: 4,
+	register(&Rule{ID: "C18.R4", Min: 2,
 		Text: "no other shared mutable state: the package starts no goroutine and uses no sync/atomic; constWithPrecision.vals is filled only by initialisation code; no function reachable from the API stores a pointer into package-level state",
 		Run:  ruleNoSharedMutable})
 	register(&Rule{ID: "C19.R3", Min: 1,
 		Text: "Context.Reduce keeps the operand's sign: the d.Negative store derives from x.Negative alone",
 		Run:  ruleReduceSign})
-	register(&Rule{ID: "C19.R4", Min: 3,
+	register(&Rule{ID: "C19.R4", Min: 1,
 		Text: "NumDigits is sign-symmetric: the positive arm compares with the table entry's border, the negative arm with its nborder, both return the entry's digits on the inside edge; the big path compares |b| (Abs on the negative edge) with 10^n; the table index is guarded by bl <= digitsTableSize",
 		Run:  ruleNumDigitsSymmetry})
 }
